@@ -39,3 +39,12 @@ Proof. exact mask_names_spec. Qed.
 (* the name shown in the text report is the advertised one with non-printable characters replaced (fix 331ebe3): printable names are shown unchanged *)
 Theorem c01_display_printable : forall s, forallb (fun c => negb (is_control c)) (chars s) = true -> display s = s.
 Proof. exact display_printable. Qed.
+
+(* which decoded name-list reaches which category of the report object is read off the current source: SSH2_Kex.parse, translated with symbolic evaluation of
+   the constructors and properties (gen/Codecs.v), is the model's parser *)
+From VGen Require Import Codecs.
+From VProofs Require Import TieC10.
+Theorem c01_tie_parse_kexinit : forall p, parse_kexinit p = src_parse_kexinit p.
+Proof. exact tie_parse_kexinit. Qed.
+Theorem c01_tie_parse_pkm : forall p, parse_pkm p = src_parse_pkm p.
+Proof. exact tie_parse_pkm. Qed.
